@@ -37,7 +37,9 @@ UNPROVEN = ['shot noise has mean and variance equal to the signal; read noise ha
             '(op st.cosmic, exact), every ray frame has the requested shape and is non-negative; cosmic_accumulation_nonneg is a theorem about that '
             'accumulation only',
             'the spectral content (PSD) of the power_spectrum surface: not claimed by the property, not checked']
-ASSUMPTIONS = ['NaN counts / NaN rates are not generated (NumPy-level behaviour, unspecified by the property)', 'identical-draw comparisons assume one vectorised Generator call per function in C order (shot_noise: poisson(img) / normal(img, sqrt(img)); '
+ASSUMPTIONS = ['read_noise with negative `electrons` (NumPy raises on a negative scale) and power_spectrum with non-binary masks (values other than 0/1: the map is '
+               'weighted by the mask and the RMS is over its non-zero pixels) are not generated; theorems on power_spectrum over the mask assume a binary mask',
+               'NaN counts / NaN rates are not generated (NumPy-level behaviour, unspecified by the property)', 'identical-draw comparisons assume one vectorised Generator call per function in C order (shot_noise: poisson(img) / normal(img, sqrt(img)); '
                'read_noise: normal(0, e, shape); dark_current/rule07: lognormal(1, f, shape)) — an equivalent but differently ordered draw '
                'would be reported although the documented contract (determinism in the seed) still holds; power_spectrum and cosmic_rays '
                'are compared without any assumption on the draws',
